@@ -10,7 +10,7 @@ ends in, for paths under one root directory only:
         ... code under test ...
 
 `step` may return (go on), raise (the operation fails without effect), never return (process killed), or block
-in a scheduler point. Labels: mkdir, open-w, open-r, write, write-2nd-half, flush, close, rename, unlink, rmdir,
+in a scheduler point. Labels: mkdir, open-w, open-r, write (file object) / os-write (raw descriptor), write-2nd-half, flush, close, rename, unlink, rmdir,
 fsync, truncate, link, stat, fstat, read, scandir.  A write of n > 1 units is torn in two: the first half is
 pushed to the operating system before `write-2nd-half`, so a kill or a reader scheduled there sees a half-written
 file.
@@ -154,6 +154,7 @@ class FSteps:
         self.saved = None
         self.only_thread = only_thread
         self.count = 0
+        self.short_write_fn = None    # callable(path, nbytes) -> True: this raw os.write writes only half of its data
 
     # -- plumbing
     def _under(self, path):
@@ -225,9 +226,12 @@ class FSteps:
             ent = fs.fds.get(fd)
             if ent is None or not ent[1] or fs._busy():
                 return r['write'](fd, data)
-            fs._step('write', ent[0])
+            fs._step('os-write', ent[0])
             n = len(data)
             half = n // 2
+            if half and fs.short_write_fn is not None and fs.short_write_fn(ent[0], n):
+                # a short write is not an error: the caller is told how much was written and has to go on
+                return r['write'](fd, data[:half])
             if fs.torn and half:
                 done = r['write'](fd, data[:half])
                 if done < half:
